@@ -126,6 +126,10 @@ def one(rec, hub, seed, tier, i, tmpdir):
     spec, dims = F.make_dims(fd, rng, allow_untyped_int=False)
     k = len(spec)
     values = F.make_values(rng, dims.shape)
+    if route != "xlsx" and all(s_[3] is not int for s_ in spec) and rng.random() < 0.25 and values.size:
+        # an infinite entry (an unbounded stock, a marker) is a present entry like any other (dimensions typed int are left out:
+        # there the converter's probing of the value column fails on infinities, the territory of finding F24)
+        values.reshape(-1)[int(rng.integers(0, values.size))] = [np.inf, -np.inf][int(rng.integers(0, 2))]
     recs = F.long_records(spec, values)
     wide_dim = None
     if layout == "wide":
